@@ -40,7 +40,13 @@ def parse_line(line):
     h = p[0].split(":")
     tag = h[1] if len(h) > 1 else ""
     fn, a = h[0], [int(x) for x in p[1:]]
-    if fn.startswith("re_"): fn, a = fn[3:], a[len(a) // 2:]       # the second operand set is the one reported
+    if fn.startswith("lit_"):
+        fn = fn[4:]
+        if fn == "hypot1": fn, a = "hypot", [a[0], 65536]
+    if fn in ("re_sincos_aprox", "re_cossin_aprox"): fn, a = ("cos_aprox" if fn == "re_sincos_aprox" else "sin_aprox"), a[1:]
+    elif fn.startswith("re_"): fn, a = fn[3:], a[len(a) // 2:]       # the second operand set is the one reported
+    if fn in ("shl_lit", "shr_lit"): fn = fn[:3]
+    elif fn in ("mul_lit", "div_lit"): fn, tag = fn[:3] + "_s", "i32"
     elif fn.endswith("eq_self") and len(a) == 1: fn, a = fn[:-7], [a[0], a[0]]
     return fn, gen.TYPE_ALIAS.get(tag, tag), a
 def tdiv(a, b):
@@ -156,6 +162,10 @@ class C02(Suite):
                         for a in (q - 1, q, q + 1):
                             if finite(a): out.append("mul_s:%s %d %d" % (t, a, nn))
         out += scalar_special_pairs(rng, ("mul_s", "rmul_s", "muleq_s"))
+        for a_, b_ in gen.exact_product_pairs():
+            for sa in (1, -1):
+                for sb in (1, -1):
+                    if finite(sa * a_) and finite(sb * b_): out += ["mul %d %d" % (sa * a_, sb * b_), "mul %d %d" % (sb * b_, sa * a_), "muleq %d %d" % (sa * a_, sb * b_)]
         return out
     def nontrivial(self, fn, tag, a):
         p = a[0] * a[1]
@@ -237,10 +247,24 @@ class C04(Suite):
                 if (v & 3) == 0 or abs(v) < 300 or abs(v) > 2**30:
                     out.append("add_i:%s 0 %d" % (t, v)); out.append("radd_i:%s 0 %d" % (t, v)); out.append("rdiv_i:%s 65536 %d" % (t, v))
             xs = set(pool) | {v * 65536 + d for v in (lo, hi, lo - 1, hi + 1, 0, -1, 1) for d in (-1, 0, 1, 65535, 65536)}
+            # integral parts far outside T that are congruent to an in-range value modulo 2^8, 2^16, 2^32
+            for w in (8, 16, 32):
+                for m_ in (1, -1, 2, 3, 255, -255, 65535):
+                    for r_ in (0, 1, 7, 100, 255, 256, 65535, -1, -3):
+                        k_ = m_ * (1 << w) + r_
+                        if abs(k_) < 2**47: xs.add(k_ * 65536); xs.add(k_ * 65536 + 1234)
+            for n_ in (hi, hi - 1, lo, 2**31, 2**31 - 1, -2**31, 2**31 + 5, 2**40, -2**40, 2**63 - 1, 2**63, 2**64 - 1):
+                if lo <= n_ <= hi:
+                    for k_ in range(0, 18): out.append("rdiv_i:%s %d %d" % (t, 65536 << k_, n_)); out.append("rdiv_i:%s %d %d" % (t, -(65536 << k_), n_))
             for _ in range(m): xs.add(gen.strat(rng))
             for x in sorted(xs):
                 if finite(x): out.append("from_fixed:%s %d" % (t, x))
         return out
+    def in_domain(self, fn, tag, a):
+        # the promotion probes are `0 + n`, `n + 0` and `n / 2^k`; other first operands belong to C16
+        if fn in ("add_i", "radd_i"): return a[0] == 0
+        if fn == "rdiv_i": return a[0] != 0 and abs(a[0]) % 65536 == 0 and (abs(a[0]) // 65536) & ((abs(a[0]) // 65536) - 1) == 0
+        return True
     def nontrivial(self, fn, tag, a):
         lo, hi = int_type_range(tag)
         if fn in ("add_i", "radd_i", "rdiv_i"): return abs(a[1]) >= 2**31 - 2
@@ -249,6 +273,8 @@ class C04(Suite):
         return not (lo + 1 <= k <= hi - 1)
     def oracle(self, fn, tag, a, r):
         lo, hi = int_type_range(tag)
+        if fn == "rdiv_i" and a[0] != 65536:
+            return C16().oracle(fn, tag, a, r)
         if fn in ("add_i", "radd_i", "rdiv_i"):
             n = a[1]
             if abs(n) <= 2**31 - 1: return None if r == n * 65536 else "implicit promotion of (%s)%d in %s gives raw %d, expected %d" % (tag, n, fn, r, n * 65536)
@@ -272,6 +298,10 @@ class C06(Suite):
             for b in rng.sample(vals, 12) + [a, NANP, -NANP, -a if a != I64MIN else 0]:
                 if b == I64MIN or a == I64MIN: continue
                 for f in ("lt", "le", "gt", "ge", "eq", "ne"): out.append("%s %d %d" % (f, a, b))
+        for v in vals:
+            for w_ in (0, 1, -1):
+                if v != I64MIN:
+                    for f in ("eq", "ne", "lt", "ge"): out.append("%s %d %d" % (f, v, w_)); out.append("%s %d %d" % (f, w_, v))
         # close pairs at every magnitude (comparisons that go through a narrower or a floating type lose them)
         for k in range(1, 63):
             for _ in range(3 if tier == "quick" else 40):
@@ -824,6 +854,9 @@ class C09(Suite):
                 for d in range(-1200, 1201, 37):
                     x = m_ * 2 * PHI + sd0 + d
                     if abs(x) < 2**62: out.append("sin %d" % x); out.append("cos %d" % (-x))
+        for x in gen.period_limit_probes(2 * PHI):
+            out.append("sin %d" % x); out.append("cos %d" % x)
+            if (x & 3) == 0: out.append("sin %d" % -x); out.append("cos %d" % -x)
         for v in pool:
             if abs(v) < 2**62: out.append("sin %d" % v); out.append("cos %d" % v); out.append("sin_range %d" % v)
         return out
@@ -884,6 +917,9 @@ class C10(Suite):
             p = j * PHI + PIDIV2
             for d in (-1, 0, 1):
                 if p + d < 2**62: out += ["tan %d" % (p + d), "tan %d" % (-(p + d))]
+        for x in gen.period_limit_probes(PHI):
+            out += ["tan %d" % x, "tan %d" % (x % PHI)]
+            if (x & 3) == 0: out.append("tan %d" % -x)
         for v in pool:
             if abs(v) < 2**62: out += ["tan %d" % v, "tan %d" % (-v), "tan_range %d" % abs(v)]
         return out
@@ -910,6 +946,9 @@ class C10(Suite):
                 if l3 in res and res[l3] != r: bad.append((l, "tan not periodic: %s -> %d, %s -> %d" % (l, r, l3, res[l3])))
         return bad
 
+def atan_whole_numbers():
+    return ["atan %d" % (k * 4096) for k in range(0, 16 * 1200)] + ["atan %d" % (k * 65536) for k in range(1200, 40000, 3)]
+
 class C11(Suite):
     pid = "C11"; spec_module = "FixedMath.Spec.C11"; ub_sample = 30000
     def ops(self, tier, rng, pool):
@@ -918,6 +957,7 @@ class C11(Suite):
         for v in range(0, top): out.append("atan %d" % v)
         for v in range(0, top, 7): out.append("atan %d" % (-v))
         for v in range(0, 28672 + 5): out.append("atan_k16 %d" % v)
+        out += atan_whole_numbers()
         n = 6000 if tier == "quick" else 300000
         for _ in range(n):
             x = gen.strat(rng, 47); out.append("atan %d" % x); out.append("atan %d" % (-x)); out.append("atan %d" % (x + 1))
@@ -1134,7 +1174,7 @@ for c in (C19, C20): SUITES[c.pid] = c
 # C07 (no UB in any entry point) and C08 (independence of configuration / evaluation time)
 UNARY_FX = ["neg", "abs", "isnan", "ceil", "floor", "sin", "cos", "tan", "atan", "sqrt:dflt", "asin:dflt", "acos:dflt",
             "sqrt_aprox", "atan_index", "atan_aprox", "sin_angle:fx", "cos_angle:fx", "tan_angle:fx",
-            "to_fp:f32", "to_fp:f64", "roundtrip_d", "sqrt_abacus", "sqrt_std"]
+            "to_fp:f32", "to_fp:f64", "roundtrip_d", "sqrt_abacus", "sqrt_std", "stream"]
 BINARY_FX = ["add", "sub", "mul", "div", "addeq", "subeq", "muleq", "diveq", "band", "lt", "le", "gt", "ge", "eq", "ne",
              "atan2", "hypot:dflt", "hypot_aprox", "add_fn", "sub_fn", "mul_fn", "div_fn"]
 INT_OPS2 = ["mul_s", "rmul_s", "muleq_s", "div_s", "diveq_s", "add_i", "radd_i", "addeq_i", "sub_i", "rsub_i", "subeq_i", "rdiv_i"]
